@@ -16,6 +16,15 @@ natively (the harness stores a copy of the buffer under the same name).
 The post-conditions come from the property statement: the line yielded is what precedes the EARLIEST end-of-line
 mark (the longest mark at that position), exactly line + mark is consumed, nothing is consumed while no mark is
 there; split independence = the same line and the same consumption on every extension of the buffer.
+
+Proof engineering (measured, see the engine guide): (a) parameter objects are pinned to concrete ids (`_pin`) - a
+symbolic reference leaves every heap read as an ite over the allocation ids and defeats e-matching; (b) every
+quantified hypothesis carries the explicit trigger arr[q] (`_all`), sub-lists made by the externals get named arrays
+with the defining axiom in both directions (`_sub`); (c) the ghost positions pstar / cpos / vs of the first line are
+introduced by their defining property (`_first`); (d) proof cuts after the line selection restate the facts on the
+ghost positions; (e) tag "logic=AUFLIA": e-matching proves, z3's AUFLIA strategy finds the counter-models, every
+counter-model is replayed natively.  Not covered here: parseChunk (sequential phases), parseEventStream, the
+Requestant / Respondent message level.
 """
 from pyvc.api import *
 from pyvc import builtins_ as B
@@ -273,7 +282,9 @@ CR_LF_SPLIT = ("1 <= n0 and n0 < len(raw) and raw[n0 - 1] == 13 and raw[n0] == 1
 
 for _prop, _cases, _pool, _what in (
         ("C33", None, [(b"\r\n", b"\n", b"\r")], "the event-stream marks (CRLF, LF, CR) [the default]"),
-        ("C29", [{"eols": ("const", (b"\r\n", b"\n"))}, {"eols": ("const", (b"\r\n",))}], [(b"\r\n", b"\n")],
+        # (also listed under C33: a C33 run verifies every variant of parseLine as a dependency of parseEvents, and
+        # the native replay of a refuted obligation needs the harness registered under the property being checked)
+        ("C29,C33", [{"eols": ("const", (b"\r\n", b"\n"))}, {"eols": ("const", (b"\r\n",))}], [(b"\r\n", b"\n")],
          "the marks (CRLF, LF) [leader, trailer] and (CRLF,) [chunk size line]")):
     # FIRST variant registered = the contract used modularly by next(lineParser) in parseEvents (marks = default)
     contract(F, "parseLine", _prop, tags=("step2", "emits", "logic=AUFLIA", "fresh-result"), params=dict(raw=BA),
@@ -1119,8 +1130,12 @@ def _mk_events(rng, i, cex, nr):
     pre = b""
     for _ in range(rng.randint(0, 3)):
         pre += rng.choice(EVENT_LINES[:12] + [b""]) + b"\n"
-    _drive(gen, es, pre)
-    assert len(es.raw) == 0
+    try:
+        _drive(gen, es, pre)
+    except Exception:
+        return None          # the generator under test cannot even be brought into a start state: no evaluation
+    if len(es.raw) != 0:
+        return None
     buf = _cex_list(cex, "raw") if cex else None
     if buf is None:
         r = rng.random()
